@@ -34,8 +34,8 @@ type guardCfg struct {
 	rule        string
 	scopePkgs   []string
 	sharedTypes map[string]bool
-	perInstance map[string]bool            // lock classes with per-object identity
-	instanceOf  map[string]string          // field's struct type -> per-instance lock class that can protect it
+	perInstance map[string]bool   // lock classes with per-object identity
+	instanceOf  map[string]string // field's struct type -> per-instance lock class that can protect it
 	exemptField func(t, f string) bool
 	keyPrefix   string
 }
